@@ -530,6 +530,14 @@ fn send(
                         );
                         state.max_gso_segments.store(1, Ordering::Relaxed);
                     }
+
+                    // The kernel refused a segmentation-offloaded batch. Retrying it unchanged would
+                    // fail the same way, so send its datagrams one by one instead of dropping them.
+                    // The failure says nothing about the other control messages, so this must not
+                    // switch to the `sendmsg_einval` fallback mode.
+                    if let Some(segment_size) = transmit.effective_segment_size() {
+                        return send_unsegmented(state, &io, transmit, segment_size);
+                    }
                 }
 
                 // Some arguments to `sendmsg` are not supported. Switch to
@@ -554,6 +562,28 @@ fn send(
             }
         }
     }
+}
+
+/// Sends the segments of a GSO batch as individual datagrams
+#[cfg(any(target_os = "linux", target_os = "android"))]
+fn send_unsegmented(
+    state: &UdpSocketState,
+    io: &socket2::Socket,
+    transmit: &Transmit<'_>,
+    segment_size: usize,
+) -> io::Result<()> {
+    for contents in transmit.contents.chunks(segment_size) {
+        send(
+            state,
+            SockRef::from(io),
+            &Transmit {
+                contents,
+                segment_size: None,
+                ..transmit.clone()
+            },
+        )?;
+    }
+    Ok(())
 }
 
 #[cfg(any(target_os = "openbsd", target_os = "netbsd", apple_slow))]
